@@ -6,7 +6,7 @@ import ast
 from . import e2_formula as F
 from . import ode_spaces as O
 from .core import AnchorError, Unsupported
-from .e1_srcmodel import dotted, walk_no_nested, parent, ancestors
+from .e1_srcmodel import dotted, walk_no_nested, parent, ancestors, utext
 from .e2_eval import Evaluator, is_unknown, need
 
 UTIL = "pyyeti/ode/_utilities.py"
@@ -24,7 +24,7 @@ def _mk_eval(ctx, m_none, extra_env=None, cond_extra=None, call_extra=None):
         env.update(extra_env)
 
     def cond(test, ev):
-        t = ast.unparse(test).replace(" ", "")
+        t = utext(test)
         if t in ("self.misNone", "misNone"):
             return m_none
         if t in ("self.misnotNone", "misnotNone"):
@@ -335,7 +335,7 @@ def r5_solvepsd(ctx):
     env = {"sol.a": A, "sol.v": V, "sol.d": D, "unitforce": F.const(1)}
     for nm in names:
         env[nm] = F.sym(nm)
-    ev = Evaluator(env=env, src=ctx.src, cond=lambda t, ev: True if "isnotNone" in ast.unparse(t).replace(" ", "") else None)
+    ev = Evaluator(env=env, src=ctx.src, cond=lambda t, ev: True if "isnotNone" in utext(t) else None)
     body = [s for s in lp.body]
     ev.run(body[:-1] if isinstance(body[-1], ast.AugAssign) else body)
     frf = ev.env.get("frf")
@@ -360,8 +360,8 @@ def r5_solvepsd(ctx):
             ctx.check(ok, f"solvepsd: `{nm}` multiplies {want_attr.get(nm) or 'the unit force'} under its own None-check", st)
     # the unit FRF: genforce = t_frc[:, i:i+1] @ unitforce ; fsolve(genforce, freq)
     outer = [n for n in fn.body if isinstance(n, ast.For) and ast.unparse(n.iter).replace(" ", "") == "range(rpsd)"]
-    ok = bool(outer) and any(ast.unparse(s).replace(" ", "") == "genforce=t_frc[:,i:i+1]@unitforce" for s in outer[0].body) \
-        and any(ast.unparse(s).replace(" ", "") == "sol=fs.fsolve(genforce,freq,**kwargs)" for s in outer[0].body)
+    ok = bool(outer) and any(utext(s) == "genforce=t_frc[:,i:i+1]@unitforce" for s in outer[0].body) \
+        and any(utext(s) == "sol=fs.fsolve(genforce,freq,**kwargs)" for s in outer[0].body)
     ctx.check(ok, "solvepsd: one unit-amplitude FRF per force column (t_frc[:, i] at every frequency)", outer[0] if outer else fn)
     # rms^2 = trapezoidal area of the PSD over the frequency vector: evaluated on a generic 4-point grid
     # (symbolic f0..f3, p0..p3), so any algebraically equivalent formulation is accepted
@@ -370,7 +370,7 @@ def r5_solvepsd(ctx):
     pp = tuple(F.sym(f"p{i}") for i in range(NF))
 
     def sub(node, ev):
-        if ast.unparse(node).replace(" ", "") == "psd[j]":
+        if utext(node) == "psd[j]":
             return pp
         return NotImplemented
 
